@@ -1,3 +1,4 @@
+import PyYetiVerif.Model.Newmark
 /-
 Model of the coupled-damping-as-force time-domain solver (C17): `SolveCDF` /
 `SolveUnc(cd_as_force=True)`.  Core Lean only.
@@ -5,8 +6,13 @@ Model of the coupled-damping-as-force time-domain solver (C17): `SolveCDF` /
 Sources transcribed (pyyeti/ode/solveunc.py):
   _solve_real_unc_cdforces     -> `cdfStep`, `cdfRun`  (batch recurrence with `alpha`)
   _solve_real_unc_inner_loop   -> `uncStep`, `uncRun`  (plain uncoupled recurrence, for comparison)
-  __init__                     -> `alpha = bo (I + Bp bo)^-1` is a *parameter* here (`la.solve`), its
-                                  specification is a hypothesis of `Props/C17.cdf_is_documented`
+  __init__                     -> `tmpMat`, `alphaMat`: `tmp = I + Bp[:, None] * bo`,
+                                  `alpha = la.solve(tmp.T, bo.T).T` with `la.solve` a parameter
+                                  (`solveWith`; Gaussian elimination in the driver).  In `Ops` `alpha` is
+                                  an operator; its specification `alpha = bo Z`, `(I + Bp bo) Z = I` is a
+                                  hypothesis of `Props/C17.cdf_is_documented`, and
+                                  `Props/C17Cdf.cdf_alpha_transpose_solve` / `cdf_alpha_identity` say what
+                                  the transposed solve computes (no symmetry of `bo` needed)
 
 Written once over a vector type `V` with `+`, `-`; the diagonal coefficient arrays of
 `get_su_coef` act as operators `V → V` (componentwise products in the driver, linear maps in the
@@ -67,5 +73,25 @@ def uncFrom (C : Ops V) (order1 : Bool) (s : V × V) : List V → List (V × V)
   | p0 :: p1 :: ps => s :: uncFrom C order1 (uncStep C order1 s p0 p1) (p1 :: ps)
 
 end
+
+/-! ### `alpha` as `SolveUnc.__init__` computes it -/
+section alpha
+open PyYetiVerif.Newmark
+variable {α : Type} [Add α] [Mul α] [OfNat α 0] [OfNat α 1]
+
+/-- `tmp = np.eye(n) + Bp[:, None] * bo`: row `i` of `bo` scaled by `Bp_i`, plus the identity -/
+def tmpMat (Bp : Array α) (bo : Mat α) : Mat α :=
+  (Array.range bo.size).map fun i => (Array.range bo.size).map fun j =>
+    (if i = j then (1 : α) else 0) + Bp.getD i 0 * (bo.getD i #[]).getD j 0
+
+/-- `X.T` -/
+def transposeMat (X : Mat α) : Mat α := (Array.range X.size).map fun j => (matCol X j).a
+
+/-- `alpha = la.solve(tmp.T, bo.T).T`: column `j` of the solution `X` of `tmpᵀ X = boᵀ` is
+`solve(tmpᵀ, row j of bo)`, and `alpha = Xᵀ` has it as its row `j` -/
+def alphaMat (Bp : Array α) (bo : Mat α) (solveWith : Mat α → Vec α → Vec α) : Mat α :=
+  bo.map fun row => (solveWith (transposeMat (tmpMat Bp bo)) ⟨row⟩).a
+
+end alpha
 
 end PyYetiVerif.Cdf
